@@ -128,6 +128,12 @@ func TestVerifReplay(t *testing.T) {
 	for _, near := range []string{"debian", "semver", "go", "rubygems", "pip", "NPM", "npm2", "np", "", "cran", "composer", "conan", "hex"} {
 		check("vers:"+near+"/>=1.0.0", "1.0.0")
 	}
+	// constraint lists without a single constraint (only separators and blanks), for every supported scheme
+	for sc := range supported {
+		for _, cs := range []string{"", " ", "|", " | ", "||", "| |", "  |  |  "} {
+			check("vers:"+sc+"/"+cs, "1.0.0")
+		}
+	}
 	if bad > 0 {
 		fmt.Printf("VERIF-CX %s (%d of %d malformed ranges were answered)\n", first, bad, n)
 		return
@@ -154,7 +160,7 @@ func versValidFalsifier(w *World, fn *ssa.Function, r vcResult) *Counterexample 
 func (w *World) versValidVC() []VC {
 	return []VC{{Name: "vers.Contains.c17.malformed-rejected.bounded", Prop: "C17", Kind: "bounded.api", Fn: "vers.Contains", Pos: "pkg/spec/vers/vers.go",
 		Clause:  "vers.Contains returns an error and false for every malformed range (prefix, separator, scheme characters, unsupported scheme, constraint without comparator or version, non-printable or non-ASCII character)",
-		Bounded: "every single-point corruption (delete, 12 replacement bytes, 12 inserted bytes, case change of the scheme) of five valid ranges, 13 near-miss scheme names, three non-ASCII runes at two positions",
+		Bounded: "every single-point corruption (delete, 12 replacement bytes, 12 inserted bytes, case change of the scheme) of five valid ranges, 13 near-miss scheme names, three non-ASCII runes at two positions, seven constraint lists made of separators and blanks only for each of the 11 schemes",
 		Run: func() SolveResult {
 			start := time.Now()
 			cx := versValidFalsifier(w, nil, vcResult{})
